@@ -65,6 +65,13 @@ def queries(tier):
         qs.append(bq(i, 'h_mul', defs={'DS_CONTRACT': 1}, kf_excl=['C19-mul-zero']))
         qs.append(bq(i, 'h_div_mod', defs={'DS_CONTRACT': 1}))
         qs.append(bq(i, 'h_div_top', defs={'DS_CONTRACT': 1, 'DS_PRE_ASSUMED': 1}, backend='z3'))
+    # cross-check of the assume/guarantee split: the REAL double-word helper, exact products, end to end against the native oracle
+    # (only small words are within reach of a SAT solver: two copies of a multiplier/divider have to be shown equal)
+    for i in (['u8x32'] if quick else ['u8x32', 'u16x64']):
+        for x in range(nwords(i)):
+            qs.append(bq(i, 'h_mul', name='direct/mul/idx%d' % x, defs={'IDX': x}, backend='kissat', kf_excl=['C19-mul-zero']))
+    for x in ((0,) if quick else (0, 1)):
+        qs.append(bq('u8x32', 'h_div', name='direct/div/idx%d' % x, defs={'IDX': x, 'DIV_BY_MULT': 1}, backend='kissat'))
     # one counterexample query per known finding
     for i in (['u64x192'] if quick else ['u8x32', 'u64x192']):
         for e, f in WITH_KF.items():
@@ -79,14 +86,12 @@ def queries(tier):
     U64 = 'unsigned long long'
     qs.append(dq('ds_mul/u64', 'h_ds_mul', U64, 64, backend='cvc5int'))
     # Divide<u64>: every divisor the library itself passes (Digit.hpp: 10^19 and 5^k, k <= 27), all dividends
-    pows = [1, 13, 27] if quick else list(range(0, 28))
+    pows = list(range(0, 28))
     divisors = [('1e19', 10 ** 19)] + [('5e%d' % k, 5 ** k) for k in pows]
     for n, v in divisors:
         qs.append(dq('ds_div/u64/d=' + n, 'h_ds_div', U64, 64, defs={'DIVISOR': '%dULL' % v}, backend='cvc5int'))
     # arbitrary 64-bit divisors: counterexample search only (a proof is out of reach)
     qs.append(dq('ds_div/u64/kf/div_odd', 'h_ds_div', U64, 64, defs={'CHECK_MULT': 1}, backend='kissat', kf_only='C19-div-odd'))
-    # sanity of the proving set-up: the same proof attempted for one divisor of the defect class must fail
-    qs.append(dq('ds_div/u64/kf/div_odd_const', 'h_ds_div', U64, 64, defs={'DIVISOR': '%dULL' % (2 ** 63 + 1)}, backend='cvc5int', kf_only='C19-div-odd'))
     return qs
 
 def dq(name, entry, w, wb, defs=None, **kw):
